@@ -71,14 +71,13 @@ func (l *Lines) Reload(blockIdx int) {
 	copy(lines, newBlock)
 }
 
-func (l *Lines) reloadRange(from int, to int) {
-	if from > to {
-		from, to = to, from
-	}
-
-	for i := from; i <= to; i++ {
-		l.Reload(i)
-	}
+// reloadAll renders the whole listing anew. Unlike a move of an instruction
+// within its block, a move of a block changes the lines where the blocks start,
+// so reloading the moved blocks in place is not enough.
+func (l *Lines) reloadAll() {
+	fresh := newLines(l.code)
+	l.lines = fresh.lines
+	l.blockStarts = fresh.blockStarts
 }
 
 func (l *Lines) Move(fromLine int, toLine int) error {
@@ -105,7 +104,7 @@ func (l *Lines) Move(fromLine int, toLine int) error {
 			return fmt.Errorf("block move failed: %w", err)
 		}
 
-		l.reloadRange(fromBlock, toBlock)
+		l.reloadAll()
 	} else {
 		if fromBlock != toBlock {
 			return fmt.Errorf("instructions cannot be moved among blocks")
